@@ -24,6 +24,12 @@ def h_op(ctx, opname, D, P):
     if 'neq' in op.tags:
         for idx in np.ndindex(*raw[0][0].shape):
             ctx.assume(raw[0][0][idx] != raw[1][0][idx])
+    if 'distinct' in op.tags:
+        z = raw[0][0]
+        for p_ in range(z.shape[0]):
+            for i in range(z.shape[1]):
+                for j in range(i):
+                    ctx.assume(z[p_, i] != z[p_, j])
     full = O.outputs(op.fn(algopy, *[O.wrap(ctx, algopy, a, r) for a, r in zip(op.args, raw)]))
     utpm_args = set(k for k, a in enumerate(op.args) if a.kind == 'utpm')
     if ctx.mode == 'sym':
@@ -43,10 +49,30 @@ def h_op(ctx, opname, D, P):
             ctx.eq(f[:Dp], o, "out%d[:%d]" % (k, Dp))
 
 
+def h_compare(ctx, D, P):
+    """comparisons (hence data-dependent branches) do not depend on the truncation degree"""
+    import operator
+    algopy = symx.load_algopy()
+    X = O.make_input(ctx, O.Arg('utpm', (2,)), 'x', D, P)
+    Y = O.make_input(ctx, O.Arg('utpm', (2,)), 'y', D, P)
+    c = ctx.var('c')
+    for name, f in [('<', operator.lt), ('<=', operator.le), ('>', operator.gt), ('>=', operator.ge), ('==', operator.eq)]:
+        full_s = bool(f(O.wrap(ctx, algopy, O.Arg('utpm', (2,)), X), c))
+        full_u = bool(f(O.wrap(ctx, algopy, O.Arg('utpm', (2,)), X), O.wrap(ctx, algopy, O.Arg('utpm', (2,)), Y)))
+        for Dp in range(1, D):
+            ts = bool(f(O.wrap(ctx, algopy, O.Arg('utpm', (2,)), X[:Dp]), c))
+            tu = bool(f(O.wrap(ctx, algopy, O.Arg('utpm', (2,)), X[:Dp]), O.wrap(ctx, algopy, O.Arg('utpm', (2,)), Y[:Dp])))
+            ctx.fact(ts == full_s, "x %s c at D'=%d (%s) == at D=%d (%s)" % (name, Dp, ts, D, full_s))
+            ctx.fact(tu == full_u, "x %s y at D'=%d (%s) == at D=%d (%s)" % (name, Dp, tu, D, full_u))
+
+
 def units(tier, seed):
     out = []
-    D, P = (4, 1) if tier == 'quick' else (6, 2)
+    D, P = (4, 2) if tier == 'quick' else (6, 2)
     for op in O.catalogue():
+        if 'c14only' in op.tags:
+            continue
         out.append(Unit('C12/%s/D%d,P%d' % (op.name, D, P), 'symx.props.c12', 'h_op',
-                        {'opname': op.name, 'D': D, 'P': P}, {'property': PROP}))
+                        {'opname': op.name, 'D': D, 'P': P}, {'property': PROP, 'path_budget': 300}))
+    out.append(Unit('C12/comparisons/D3,P1', 'symx.props.c12', 'h_compare', {'D': 3, 'P': 1}, {'property': PROP, 'path_budget': 2000, 'validate_paths': 3}))
     return out
